@@ -5,6 +5,7 @@ FUNCTIONS = ["Optimize.solve", "Optimize.solve@self-calls", "Optimize.step@self-
              "MeritFunctionForMatch.__call__@within-tol-flag", "MeritFunctionForMatch.__call__@knob-block", "Optimize.set_knobs_from_x"]
 RAC = "rac/c09.py"
 RAC_BUDGET = {"quick": 60, "thorough": 900}
+RAC_MIN = {"quick": 239, "thorough": 239}      # fewer run-time evaluations than this = the harness skipped its work: checker broken, not "held"
 DESIGN_REF = "DESIGN.md section 4, C09"
 TECHNIQUE = 'contract-based deductive verification of the solve() protocol and of the blocks that restore / evaluate (pyvc: exceptional postconditions, block contracts on the real statements; z3) + run-time contracts on generated matching problems with an independent evaluator'
 TRUSTED = ["floats are treated as reals (DESIGN 2.3(1)); every 'up to rounding' clause is run-time only", 'numpy-lite model of pyvc/num_engine.py (vectors as length + array, in-place scaling as a scalar factor, np.abs/argmin/all, zip/enumerate/range) and, for element-wise numpy code, the pointwise abstraction of pyvc/pointwise_engine.py', 'numpy / LAPACK / scipy themselves', 'z3 (NRA/LRA + quantifiers), cvc5']
